@@ -51,9 +51,12 @@ def same_result(a, b):
     return ha == hb and simlib.states_close(simlib.parse_state("state " + sa), simlib.parse_state("state " + sb))
 
 
-def run_programs(programs, echo=True, flavour="plain"):
+def run_programs(programs, echo=True, flavour="plain", with_model=True):
     """programs: list of (source, draws). Returns (impl lines, model lines)."""
     lines = ["run %s %s %s" % (hx(src), "1" if echo else "0", draws_arg(ds)) for src, ds in programs]
     impl, incident = run_guarded(harness(flavour), lines, chunk_timeout=60)
-    model, _ = run_guarded(buildlib.driver_path(), lines, chunk_timeout=120)
+    if with_model:
+        model, _ = run_guarded(buildlib.driver_path(), lines, chunk_timeout=120)
+    else:
+        model = ["unsupported not-run"] * len(lines)
     return lines, impl, model, incident
